@@ -157,16 +157,11 @@ func exec(ops []string, o *vu.Out) {
 	var s quic.VerifRangeset
 	var hist []hop
 	outOfContract := false // an op with start > end was seen: the oracle stops
-	tainted := false       // a `sub a a` strictly inside a range was executed (known finding)
 	fail := func(desc string) {
 		if outOfContract {
 			return
 		}
-		sig := ""
-		if tainted {
-			sig = "sub-empty-range-splits"
-		}
-		o.Fail(sig, desc)
+		o.Fail("", desc)
 	}
 	checkAll := func(op string) {
 		if outOfContract {
@@ -247,7 +242,7 @@ func exec(ops []string, o *vu.Out) {
 		case t[0] == "reset" && len(t) == 1:
 			s = quic.VerifRangeset{}
 			hist = nil
-			outOfContract, tainted = false, false
+			outOfContract = false
 			o.Op(op, "ok")
 		case (t[0] == "add" || t[0] == "sub") && len(t) == 3:
 			a, b := vu.Atoi64(t[1]), vu.Atoi64(t[2])
@@ -261,8 +256,7 @@ func exec(ops []string, o *vu.Out) {
 			if t[0] == "sub" && a == b {
 				for _, r := range s.Ranges() {
 					if r[0] < a && a < r[1] {
-						tainted = true
-						o.Stat("finding:sub-empty-inside")
+						o.Stat("empty:sub-inside-range")
 					}
 				}
 			}
